@@ -1,0 +1,4 @@
+// Package verifx re-exports, in builds with the verif tag only, entry points
+// of internal packages so that verification harnesses outside this module can
+// exercise them. Without the tag the package is empty.
+package verifx
